@@ -1030,7 +1030,13 @@ func (g *sgGen) genCaller() string {
 			existing = sgScope(rollup, other, owners)
 			must, avail = mustOwners, owners
 			switch y := g.r.Intn(100); {
-			case y < 25: // unchanged
+			case y < 25: // unchanged (Scope.Equals ignores the order of the owners)
+				if g.r.Bool() && len(owners) > 1 {
+					propOwners = append([]sgParty{}, owners...)
+					for i, j := 0, len(propOwners)-1; i < j; i, j = i+1, j-1 {
+						propOwners[i], propOwners[j] = propOwners[j], propOwners[i]
+					}
+				}
 			case y < 50:
 				propOther = (other + 1) % 3
 			case y < 85:
@@ -1330,6 +1336,68 @@ func sgExhaustive(idx uint64) string {
 		sgParties(req), sgParties(avail), sgRoles(roles), JoinOr(signers, "|"), JoinOr(gs, "|"))
 }
 
+// ---- the exhaustive small universe for the smart-contract rules ----------------------------
+//
+// signers: every list of ≤ 3 over {W,V,A,B} (repeats allowed); available = required parties:
+// a few shapes around the smart contract W (with / without the PROVENANCE role, optional or
+// not, next to an ordinary owner); required roles: none, PROVENANCE, OWNER; grants: every
+// subset of the 6 pairs granter ∈ {A,B,V,W} → grantee ∈ {W,V}.
+
+var sgScSigners = func() [][]string {
+	names := []string{"W", "V", "A", "B"}
+	out := [][]string{nil}
+	for _, a := range names {
+		out = append(out, []string{a})
+	}
+	for _, a := range names {
+		for _, b := range names {
+			out = append(out, []string{a, b})
+		}
+	}
+	for _, a := range names {
+		for _, b := range names {
+			for _, c := range names {
+				out = append(out, []string{a, b, c})
+			}
+		}
+	}
+	return out
+}()
+
+var sgScParties = [][]sgParty{
+	nil,
+	{{"W", 8, false}}, {{"W", 8, true}}, {{"W", 5, false}}, {{"A", 8, false}}, {{"A", 5, false}}, {{"A", 5, true}},
+	{{"W", 8, false}, {"A", 5, false}}, {{"W", 8, true}, {"A", 5, true}}, {{"A", 5, false}, {"V", 8, true}},
+}
+
+var sgScRoles = [][]int{nil, {8}, {5}}
+
+var sgScPairs = []string{"A>W", "B>W", "V>W", "A>V", "B>V", "W>V"}
+
+func sgScTotal() uint64 {
+	return uint64(len(sgScSigners)) * uint64(len(sgScParties)) * uint64(len(sgScRoles)) * 64
+}
+
+func sgScExhaustive(idx uint64) string {
+	take := func(n int) int {
+		d := int(idx % uint64(n))
+		idx /= uint64(n)
+		return d
+	}
+	gmask := take(64)
+	signers := sgScSigners[take(len(sgScSigners))]
+	roles := sgScRoles[take(len(sgScRoles))]
+	ps := sgScParties[take(len(sgScParties))]
+	var gs []string
+	for i, p := range sgScPairs {
+		if gmask&(1<<i) != 0 {
+			gs = append(gs, p+":WriteScope")
+		}
+	}
+	return fmt.Sprintf("wp mt=WriteScope req=%s avail=%s roles=%s signers=%s grants=%s",
+		sgParties(ps), sgParties(ps), sgRoles(roles), JoinOr(signers, "|"), JoinOr(gs, "|"))
+}
+
 // ---- driver / replayer ---------------------------------------------------------------
 
 func (e *signersEnv) run(line string, out *Out) {
@@ -1379,10 +1447,19 @@ func driveSigners(t *testing.T, rng *RNG, n int, out *Out) {
 			}
 		}
 		e.shared = nil
+		for gm := uint64(0); gm < 64; gm++ {
+			for r := shard; r < sgScTotal()/64; r += shards {
+				e.runShared(sgScExhaustive(r*64+gm), out)
+			}
+		}
+		e.shared = nil
 	} else {
-		// quick: a sample of the small universe (uniform in every coordinate)
+		// quick: a sample of the small universes (uniform in every coordinate)
 		for i := 0; i < n/3; i++ {
 			e.run(sgExhaustive(rng.U64()%total), out)
+		}
+		for i := 0; i < n/6; i++ {
+			e.run(sgScExhaustive(rng.U64()%sgScTotal()), out)
 		}
 	}
 	for i := 0; i < n; i++ {
